@@ -134,6 +134,23 @@ def c11_oracle_fidelity(seed, n):
     return {'keys': n, 'mismatches': 0}
 
 
+def c15_sink_rule():
+    """Table test of the acceptance rule under faults (a pure function): what must be accepted and what must not."""
+    from .c15_world import sink_ok_under_fault as ok
+    outs = [b'AAA\n', b'BBBB\n', b'CC\n']
+    cases = [
+        (b'', 0, False, True), (b'AAA\n', 1, False, True), (b'AA', 1, False, False), (b'AAA\nBB', 1, False, True),
+        (b'AAA\nBX', 1, False, False), (b'AAA\nCC\n', 1, False, True), (b'AAA\nBBCC\n', 1, False, True),
+        (b'AAA\nC', 1, False, False), (b'CC\nAAA\n', 1, False, False), (b'AAA\nBB', 1, True, True),
+        (b'AAA\nCC\n', 1, True, False), (b'AAA\nBBBB\nCC\n', 2, False, True), (b'AAA\nBBBB\nCC\nX', 2, False, False),
+    ]
+    bad = [c for c in cases if ok(c[0], outs, c[1], c[2]) != c[3]]
+    same = [b'X\n'] * 3
+    if bad or not ok(b'X\nX\n', same, 1, False) or ok(b'X\nX\nX\nX\n', same, 1, False):
+        raise core.HarnessError('acceptance rule under faults is broken: %r' % (bad,))
+    return {'cases': len(cases) + 2, 'wrong': 0}
+
+
 def helper(argv):
     """Runs inside a fresh interpreter started by the functions above."""
     what = argv[0]
